@@ -421,7 +421,66 @@ def replay_tool(d, case):
     return False, 'nothing to compare'
 
 
-HANDLERS = {'c01': replay_c01, 'c15_list': replay_c15_list, 'tool': replay_tool}
+def replay_c20(d, case):
+    """Default taste accepts => every box reads without error, with the declared shape and the
+    values following the FAB header that names its index range in its file."""
+    import contextlib, io
+    from amr_kitchen.taste.taste import Taster
+    from amr_kitchen import PlotfileCooker
+    plt = os.path.join(d, 'plt')
+    with contextlib.redirect_stdout(io.StringIO()), contextlib.redirect_stderr(io.StringIO()):
+        try:
+            ok = bool(Taster(plt, nofail=True))
+        except Exception:
+            ok = False
+    if not ok:
+        return False, 'taste rejects it (vacuous)'
+    with open(os.path.join(plt, 'Header')) as f:
+        lines = f.read().split('\n')
+    nf = int(lines[1])
+    finest = int(lines[nf + 4])
+    pck = PlotfileCooker(plt)
+    for l in range(finest + 1):
+        with open(os.path.join(plt, 'Level_%d' % l, 'Cell_H')) as f:
+            cl = f.read().split('\n')
+        nb = int(cl[4].split()[0].replace('(', ''))
+        idx = []
+        for k in range(nb):
+            a, b_, _c = cl[5 + k].split()
+            idx.append((_ints(a), _ints(b_)))
+        fabs = [cl[7 + nb + k].split()[1:] for k in range(nb)]
+        for b in range(nb):
+            lo_, hi_ = idx[b]
+            shp = tuple(h - a + 1 for a, h in zip(lo_, hi_))
+            try:
+                got = pck[:][l][b]
+            except Exception as e:
+                return True, 'accepted, but reading level %d box %d raises %s: %s' % (l, b, type(e).__name__, e)
+            if not isinstance(got, np.ndarray) or got.shape != shp + (nf,):
+                return True, 'accepted, but level %d box %d has shape %s, declared %s' % (l, b, getattr(got, 'shape', None), shp + (nf,))
+            raw = open(os.path.join(plt, 'Level_%d' % l, fabs[b][0]), 'rb').read()
+            # scan for FAB header lines naming this index range
+            want = '((%s) (%s)' % (','.join(map(str, lo_)), ','.join(map(str, hi_)))
+            cands = []
+            pos = 0
+            while True:
+                i = raw.find(want.encode(), pos)
+                if i < 0:
+                    break
+                nl = raw.find(b'\n', i)
+                if nl < 0:
+                    break
+                n = int(np.prod(shp)) * nf
+                body = raw[nl + 1: nl + 1 + 8 * n]
+                if len(body) == 8 * n:
+                    cands.append(np.frombuffer(body, dtype='<f8').reshape(shp + (nf,), order='F'))
+                pos = nl + 1
+            if not any(bit_equal(got, c) for c in cands):
+                return True, 'accepted, but level %d box %d does not hold the values of the FAB naming its index range' % (l, b)
+    return False, 'accepted and read consistently'
+
+
+HANDLERS = {'c01': replay_c01, 'c15_list': replay_c15_list, 'tool': replay_tool, 'c20': replay_c20}
 
 
 def register(name):
